@@ -307,6 +307,7 @@ func runC08(r *Run) {
 		{false, 0, true, []att{A(true)}, false},                                  // no auth at all
 		{false, 2, true, []att{A(false), A(false)}, false},                       // give up without auth
 		{true, 1, true, []att{A(true, "u", "o")}, false},                         // fallback fails, budget 1: give up
+		{true, 0, true, []att{A(true, "u", "o"), A(true, "k9")}, false},          // fallback fails, the next attempt still authenticates
 		{true, 0, true, []att{A(true, "s"), A(true, "k11")}, false},              // silence then success
 	}
 	if r.thorough() {
